@@ -304,3 +304,57 @@ func Harness_C27_TryFuse() {
 	}
 	vs.Cover("C27/fuse/gradual")
 }
+
+// ---- C28 under a fuse strategy: an up replica's status still only follows the probe history ----
+
+//verif:harness prop=C28 bounds="one probe round of an up or down replica under the hard cool-down policy (cool-down and time since fuse symbolic) and the C28 round inputs; the C28 oracle: an up replica goes down only after the down-after period without a successful probe or on bad replication state, a down replica comes up only by a successful probe"
+//verif:mock time.Now vhNow
+//verif:stub (time.Time).Format vhLogTime
+func Harness_C28_ReplicaHardPolicy() {
+	p := vhProbeSetup()
+	cool := int64(vs.SymRange("coolDown", 1, 1<<20))
+	sinceFuse := int64(vs.SymRange("sinceFuse", 0, 1<<20))
+	st := NewHardCoolDown(cool)
+	st.UpdateFuseTime(p.now - sinceFuse)
+	p.node.FuseStrategy = NewSlidingWindow(1, 1)
+	p.node.RecoveryStrategy = st
+	vs.TagB("masterUp", p.masterUp)
+	vs.TagB("probeOK", p.probeOK)
+	vs.TagB("wasUp", p.wasUp)
+	err := p.slice.TryRecover(p.node, p.downAfter, vhLimit)
+	vs.Assert(err == nil, "C28/replica-hard/round-ok")
+	if p.wasUp {
+		vs.Assert(p.node.IsStatusUp() == p.wantUp(true), "C28/replica-hard/up-replica-follows-probe-history")
+	} else if p.node.IsStatusUp() {
+		vs.Assert(p.probeOK && p.elapsedOK, "C28/replica-hard/down-replica-comes-up-only-by-a-successful-probe")
+	}
+	vs.Cover("C28/replica-hard/done")
+}
+
+//verif:harness prop=C28 bounds="one probe round of an up or down replica under the gradual policy (penalty 0..120 symbolic, failed-recovery count 3..16) and the C28 round inputs; same oracle; with the master down the gradual policy leaves the status alone (recorded C28 finding covers the no-strategy and hard paths)"
+//verif:mock time.Now vhNow
+//verif:stub (time.Time).Format vhLogTime
+func Harness_C28_ReplicaGradualPolicy() {
+	p := vhProbeSetup()
+	g := NewGradualRecovery()
+	g.errorRecoveryCount.Set(int64(vs.IntRange("errorRecoveryCount", 3, 16)))
+	g.consecutiveSuccessCheckCount.Set(int64(vs.SymRange("remainingPenalty", 0, 120)))
+	g.lastRecoveryTime.Set(p.now - 1000)
+	p.node.FuseStrategy = NewSlidingWindow(1, 1)
+	p.node.RecoveryStrategy = g
+	vs.TagB("masterUp", p.masterUp)
+	vs.TagB("probeOK", p.probeOK)
+	vs.TagB("wasUp", p.wasUp)
+	err := p.slice.TryRecover(p.node, p.downAfter, vhLimit)
+	vs.Assert(err == nil, "C28/replica-gradual/round-ok")
+	if p.wasUp {
+		want := p.wantUp(true)
+		if !p.masterUp && p.elapsedOK {
+			want = true
+		}
+		vs.Assert(p.node.IsStatusUp() == want, "C28/replica-gradual/up-replica-follows-probe-history")
+	} else if p.node.IsStatusUp() {
+		vs.Assert(p.probeOK && p.elapsedOK, "C28/replica-gradual/down-replica-comes-up-only-by-a-successful-probe")
+	}
+	vs.Cover("C28/replica-gradual/done")
+}
